@@ -180,17 +180,20 @@ fn members(c: &mut Cur) -> PResult<Vec<Field>> {
         let mut t = ty(c)?;
         // `T | null` / `T | undefined` at member level are optional markers, not part of the type
         if let TypeExpr::Union(parts) = &t {
-            let mut rest = vec![];
+            // `T | null` marks a double option; a trailing `| undefined` after a real type is an optional marker.
+            // (`undefined` alone is typeshare's translation of `()` and stays a type.)
+            let mut rest: Vec<TypeExpr> = vec![];
             for p in parts {
                 match p {
                     TypeExpr::Name(n, a) if a.is_empty() && n == "null" => {
                         markers.insert("|null".into());
                     }
-                    TypeExpr::Name(n, a) if a.is_empty() && n == "undefined" && parts.len() > 1 => {
-                        markers.insert("|undefined".into());
-                    }
                     other => rest.push(other.clone()),
                 }
+            }
+            if rest.len() >= 2 && rest.last() == Some(&TypeExpr::name("undefined")) {
+                rest.pop();
+                markers.insert("|undefined".into());
             }
             if rest.len() == 1 {
                 t = rest.pop().unwrap();
